@@ -256,3 +256,55 @@ func RandRead(p []byte) (int, error) {
 	}
 	return len(p), nil
 }
+
+// Rand replaces *rand.Rand: generators created with rand.New are served from the
+// simulator's stream as well (their seed is ignored), so runs stay reproducible.
+type Rand struct{}
+
+// Source replaces rand.Source.
+type Source struct{}
+
+// RandNewSource replaces rand.NewSource.
+func RandNewSource(int64) *Source { return &Source{} }
+
+// RandNew replaces rand.New.
+func RandNew(*Source) *Rand { return &Rand{} }
+
+func (*Rand) Seed(int64)                  {}
+func (*Rand) Intn(n int) int              { return RandIntn(n) }
+func (*Rand) Int63n(n int64) int64        { return RandInt63n(n) }
+func (*Rand) Int31n(n int32) int32        { return RandInt31n(n) }
+func (*Rand) Int63() int64                { return RandInt63() }
+func (*Rand) Int31() int32                { return int32(RandInt63() >> 32) }
+func (*Rand) Int() int                    { return RandInt() }
+func (*Rand) Uint32() uint32              { return RandUint32() }
+func (*Rand) Uint64() uint64              { return RandUint64() }
+func (*Rand) Float64() float64            { return RandFloat64() }
+func (*Rand) Float32() float32            { return float32(RandFloat64()) }
+func (*Rand) Read(p []byte) (int, error)  { return RandRead(p) }
+func (*Rand) Perm(n int) []int {
+	p := make([]int, n)
+	for i := range p {
+		j := RandIntn(i + 1)
+		p[i] = p[j]
+		p[j] = i
+	}
+	return p
+}
+func (*Rand) Shuffle(n int, swap func(i, j int)) {
+	for i := n - 1; i > 0; i-- {
+		swap(i, RandIntn(i+1))
+	}
+}
+
+// RandInt31 replaces rand.Int31.
+func RandInt31() int32 { return int32(RandInt63() >> 32) }
+
+// RandFloat32 replaces rand.Float32.
+func RandFloat32() float32 { return float32(RandFloat64()) }
+
+// RandPerm replaces rand.Perm.
+func RandPerm(n int) []int { return (&Rand{}).Perm(n) }
+
+// RandShuffle replaces rand.Shuffle.
+func RandShuffle(n int, swap func(i, j int)) { (&Rand{}).Shuffle(n, swap) }
